@@ -411,7 +411,7 @@ pub fn sys_from_name(name: &str) -> Option<Sys> {
 
 pub fn run(tier: Tier) -> i32 {
     let rep = Report::new("C07", tier);
-    rep.set_rule("for each configuration (trains = (PDU length, fragments) on fragment ids 0..k-1, memory of n slots) breadth-first search to closure over advance(i) / restart(i) / stray(j) with state = (next index per train, real receiver snapshot); strays: intermediate/end of ids aliasing each train's slot (id+n, id+2n), of an id mapping to an empty slot, duplicate end of an idle train, complete packets (3-byte, broadcast and re-use label, the latter checked against the nearest preceding start/complete label), padding, oversize aliasing intermediate, (some configurations) a foreign first fragment claiming an aliasing slot; in some configurations trains whose first fragment carries a re-use label, offered only when a start/complete packet precedes them in the frame (padding ends the frame) and expected under the label of that packet; in some configurations trains whose first fragment carries a header extension (part of the delivered metadata); oracle: delivery exactly at the own end fragment with own bytes/metadata, no other train's reassembly data altered by any op, strays leave the memory unchanged, every packet is presented followed by three non-padding bytes and must consume exactly its own length; distinct = (op kind, outcome); number of distinct receiver memories per index vector reported. Second model (closure): three configurations in which every packet is produced by the REAL encapsulator at the moment the interleaving asks for it (encap / encap_ext first fragments, encap_frag continuations, complete packets with the trains' labels in between; trains share labels, so re-use substitution depends on the interleaving) and fed at once to the real receiver, plus receiver-side strays of unknown ids; same delivery oracle incl. the extension list");
+    rep.set_rule("for each configuration (trains = (PDU length, fragments) on fragment ids 0..k-1, memory of n slots) breadth-first search to closure over advance(i) / restart(i) / stray(j) with state = (next index per train, real receiver snapshot); strays: intermediate/end of ids aliasing each train's slot (id+n, id+2n), of an id mapping to an empty slot, duplicate end of an idle train, complete packets (3-byte, broadcast and re-use label, the latter checked against the nearest preceding start/complete label), padding, oversize aliasing intermediate, (some configurations) a foreign first fragment claiming an aliasing slot; in some configurations trains whose first fragment carries a re-use label, offered only when a start/complete packet precedes them in the frame (padding ends the frame) and expected under the label of that packet; in some configurations trains whose first fragment carries a header extension (part of the delivered metadata); oracle: delivery exactly at the own end fragment with own bytes/metadata, no other train's reassembly data altered by any op, strays leave the memory unchanged, every packet is presented followed by three non-padding bytes and must consume exactly its own length; distinct = (op kind, outcome); number of distinct receiver memories per index vector reported. Second model (closure): three configurations in which every packet is produced by the REAL encapsulator at the moment the interleaving asks for it (encap / encap_ext first fragments, encap_frag continuations, complete packets with the trains' labels and refused calls in between; trains share labels, so re-use substitution depends on the interleaving) and fed at once to the real receiver, plus receiver-side strays of unknown ids; same delivery oracle incl. the extension list");
     rep.assume("trains are built by the reference printer (independent of the crate's encapsulator); PDUs of 4..12 bytes, 2..5 fragments");
     let mut configs: Vec<(usize, Vec<(usize, usize)>, bool, Vec<usize>, Vec<usize>)> = vec![
         (2, vec![(4, 2), (6, 3)], false, vec![], vec![]),
@@ -523,6 +523,8 @@ pub enum LOp {
     Complete(usize),
     /// rejected continuation packet of an unknown id, receiver side only (0: intermediate, 1: end)
     Stray(u8),
+    /// an encap call with the label of train i that the sender refuses (3-byte buffer): nothing goes on the wire
+    Refused(usize),
 }
 
 pub struct LSys {
@@ -565,6 +567,9 @@ impl System for LSys {
         }
         v.push(LOp::Stray(0));
         v.push(LOp::Stray(1));
+        for i in 0..self.trains.len() {
+            v.push(LOp::Refused(i));
+        }
         v
     }
     fn step(&self, s: &LSt, op: &LOp, acc: &mut Acc) -> StepOut<LSt> {
@@ -589,6 +594,17 @@ impl System for LSys {
                 acc.outcome(&format!("live:stray:{}", out.class()));
                 if matches!(out, DecapOut::Completed { .. } | DecapOut::Fragmented { .. }) {
                     viols.push(("C07|live|stray-accepted".into(), format!("{:?}: a continuation packet of an unknown id is accepted: {}", op, out.brief())));
+                }
+            }
+            LOp::Refused(i) => {
+                let t = &self.trains[*i];
+                let mut tiny = [0u8; 3];
+                let o1 = do_encap(&mut n.enc, &t.pdu, t.id, t.pt, t.label, &mut tiny);
+                let o2 = do_encap_ext(&mut n.enc, &t.pdu, t.id, t.pt, t.label, &mut tiny, &[(0x0202, vec![0xE1, 0xE2])]);
+                acc.outcome(&format!("live:refused:{}/{}", o1.class(), o2.class()));
+                if o1.len().is_some() || o2.len().is_some() {
+                    viols.push(("C07|live|sender-accepts-3-byte-buffer".into(), format!("{:?}: {:?} / {:?}", op, o1, o2)));
+                    return StepOut { next: None, viols };
                 }
             }
             LOp::Complete(i) => {
